@@ -123,6 +123,7 @@ type Backend struct {
 	IgnoreReadErr bool    `json:"ignore_read_err,omitempty"` // answer per script even if reading the request failed
 	CloseBody     bool    `json:"close_body,omitempty"`      // call Request.Body.Close() after reading, before answering (as proxies do)
 	CloseAfterWrites int  `json:"close_after_writes,omitempty"` // with CloseBody: close only after this many response Write calls
+	WritePerFrame    bool `json:"write_per_frame,omitempty"`    // one Write per frame of an enveloped response body (before chunking)
 	ReadAfterWrites  int  `json:"read_after_writes,omitempty"`  // full-duplex handler: reads the request only after this many response Write calls (0: reads first), and answers per script whatever the read yields
 }
 
